@@ -74,6 +74,126 @@ def gen_rt(seed, tier="quick"):
 explore.GENERATORS["c17"] = gen_rt
 
 
+# --------------------------------------------------------------------------- the polling model MosaikRTPoll and its binding
+
+def _poll_case(ident, until, ext, seed=0):
+    scn = {"sims": [{"sid": "Sx", "type": "event-based", "gpath": [], "initev": False}], "conns": [], "until": until,
+           "rt": {"rt_factor": 1.0, "time_resolution": 1.0, "instant": True, "strict": False, "external": ext}}
+    beh = {"kind": "rt", "K": 1.0, "durations": [0], "events": {}, "no_self_steps": ["Sx"], "p_future": 0.0}
+    return {"id": ident, "scn": S.normalize(scn), "seed": seed, "behaviour": beh, "policy": {"kind": "timer"}}
+
+
+def _poll_events(res, per_sub):
+    """The logged events of one execution in model units (per_sub = harness ticks per model sub-tick); None if off the grid."""
+    out = []
+    for e in res["item"]["ev"]:
+        if e["k"] == "CB" and e.get("ext"):
+            out.append({"k": "ext", "w": e["w"], "t": e["arg"]})
+        elif e["k"] == "SB":
+            out.append({"k": "begin", "w": e["w"], "t": e["t"]})
+        elif e["k"] == "END":
+            out.append({"k": "end", "w": 0, "t": 0})
+    for e in out:
+        if e["w"] % per_sub:
+            return None
+        e["w"] //= per_sub
+    return out
+
+
+def poll_model_part(tier, seed):
+    """MosaikRTPoll: (1) exhaustive TLC run, and the variant that refreshes the progress only after a timeout must violate
+    Prompt (negative control of the specification); (2) spec -> code: every external schedule of the model's terminal states
+    is replayed into the real scheduler, the begin times must be one of the model's outcomes; (3) code -> spec: random
+    external schedules on a finer grid, every recorded execution must be a behaviour of the model (RTPollTrace)."""
+    import collections
+    import os
+    import re
+    import shutil
+
+    cov = {"drift": []}
+    out, secs, rc = tlc.run_tlc("MosaikRTPoll", cfg="MosaikRTPoll.cfg", workers=6, timeout=900)
+    if "No error has been found" not in out:
+        raise tlc.TLCError("MosaikRTPoll.tla: " + "\n".join(out.splitlines()[-30:]))
+    cov["model"] = {"module": "MosaikRTPoll", "states": tlc.stats(out)["distinct"], "transitions": tlc.stats(out)["generated"]}
+    outb, _, _ = tlc.run_tlc("MosaikRTPoll", cfg="MosaikRTPollBug.cfg", workers=2, timeout=900)
+    if "Invariant Prompt is violated" not in outb and "Invariant NeverLate is violated" not in outb:
+        raise tlc.TLCError("negative control failed: MosaikRTPoll with RefreshOnWake = FALSE does not violate Prompt\n" + "\n".join(outb.splitlines()[-20:]))
+    cov["negative_control"] = "RefreshOnWake = FALSE violates Prompt (expected)"
+    # (2) spec -> code
+    outd, _, _ = tlc.run_tlc("MosaikRTPoll", cfg="MosaikRTPollDump.cfg", workers=1, timeout=900)
+    Km, Um = 4, 4
+    sentinel = (Um + 1) * Km * 2
+    outcomes = collections.defaultdict(set)
+    for txt in tlc.tuples(outd, "RTB"):
+        parts = txt.split("(")
+        if len(parts) < 3:
+            continue
+        setat = {int(a): int(b) for a, b in re.findall(r"(\d+) :> (\d+)", parts[1])}
+        began = {int(a): int(b) for a, b in re.findall(r"(\d+) :> (\d+)", parts[2])}
+        evs = tuple(sorted((setat[t], t) for t in range(1, Um) if began.get(t, sentinel) != sentinel))
+        outcomes[evs].add(tuple(began.get(t, sentinel) for t in range(1, Um)))
+    scheds = sorted(outcomes)
+    cases = [_poll_case([f"rtpoll-replay-{i}", "poll-replay"], Um, [{"sid": "Sx", "at": w * 8 // Km, "t": t} for w, t in evs]) for i, evs in enumerate(scheds)]
+    pairs = explore.run_cases(cases)
+    per_sub = 1024 // Km
+    ok = 0
+    for (c, r), evs in zip(pairs, scheds):
+        got = {e["t"]: e["w"] for e in r["item"]["ev"] if e["k"] == "SB"}
+        vec = tuple((got[t] // per_sub if got[t] % per_sub == 0 else -1) if t in got else sentinel for t in range(1, Um))
+        if r["outcome"]["r"] == "ok" and vec in outcomes[evs]:
+            ok += 1
+        elif len(cov["drift"]) < 5:
+            cov["drift"].append({"what": "spec->code", "external": list(evs), "code_began": vec, "model_began": sorted(outcomes[evs])[:4], "outcome": r["outcome"]})
+    cov["replayed_model_schedules"] = len(scheds)
+    cov["replayed_with_model_outcome"] = ok
+    cov["model_terminal_states"] = sum(len(v) for v in outcomes.values())
+    # (3) code -> spec
+    import random
+
+    rng = random.Random(f"rtpoll|{seed}")
+    n = 300 if tier == "quick" else 4000
+    cases = []
+    for i in range(n):
+        ext, at, tprev = [], 0, 0
+        for _ in range(rng.randint(1, 5)):
+            at += rng.randint(0, 11)
+            t = max(at // 8 + 1, tprev + 1) + rng.choice([0, 0, 0, 1])
+            if t > 5:
+                break
+            ext.append({"sid": "Sx", "at": at, "t": t})
+            tprev = t
+        cases.append(_poll_case([f"rtpoll-{seed}-{i}", "poll"], 5, ext))
+    pairs2 = explore.run_cases(cases)
+    batch, owners = [], []
+    for c, r in pairs2:
+        evs = _poll_events(r, 128)
+        if evs is None or r["outcome"]["r"] != "ok":
+            if len(cov["drift"]) < 5:
+                cov["drift"].append({"what": "code->spec", "external": c["scn"]["rt"]["external"], "why": "off the grid" if evs is None else r["outcome"]})
+            continue
+        batch.append({"ev": evs})
+        owners.append((c, r))
+    wd = tlc.scratch()
+    try:
+        path = os.path.join(wd, "batch.json")
+        json.dump(batch, open(path, "w"))
+        outt, secs, rc = tlc.run_tlc("RTPollTrace", cfg="RTPollTrace.cfg", env={"TRACE_FILE": path}, workers=4, timeout=1800)
+    finally:
+        shutil.rmtree(wd, ignore_errors=True)
+    if "violated" in outt or "Error:" in outt:
+        raise tlc.TLCError("RTPollTrace: " + "\n".join(outt.splitlines()[-30:]))
+    acc = {int(m.group(1)) for m in re.finditer(r'<<"RTP", (\d+), \d+>>', outt)}
+    for i, (c, r) in enumerate(owners, 1):
+        if i not in acc and len(cov["drift"]) < 5:
+            cov["drift"].append({"what": "code->spec", "external": c["scn"]["rt"]["external"], "events": batch[i - 1]["ev"]})
+    cov["recorded_executions"] = len(batch)
+    cov["recorded_executions_accepted"] = len(acc)
+    cov["trace_states"] = tlc.stats(outt)["distinct"]
+    for d in cov["drift"]:
+        print(f"DRIFT real-time polling model {d['what']}: {json.dumps(d)[:300]} (code and specification MosaikRTPoll differ; not a verdict)")
+    return cov, pairs + pairs2
+
+
 def run(tier, seed):
     from checks import det
 
@@ -85,6 +205,8 @@ def run(tier, seed):
     n = 500 if tier == "quick" else 8000
     base = seed * 1_000_003
     pairs = explore.run_generated("c17", {"tier": tier}, (base, base + n))
+    poll_cov, poll_pairs = poll_model_part(tier, seed)
+    pairs += poll_pairs  # the executions of the model binding are judged by the reference semantics as well
     findings, st = sched_checks.judge_results("C17", pairs, prefixes=("C17_", "C05_", "C02_"))
     # rt_strict changes nothing else: the strict run is a prefix of the non-strict run
     by = {}
@@ -119,7 +241,9 @@ def run(tier, seed):
         "exhaustive": False,
         "runs": dict(kinds), "outcomes": st["stats"],
         "model": {"module": "MosaikRT", "states": mst["distinct"], "transitions": mst["generated"]},
-        "checker_cmd": "tlc -config MosaikRT.cfg MosaikRT; tlc -config RefTrace.cfg RefTrace; tlc -config DetTrace.cfg DetTrace",
+        "polling_model": poll_cov,
+        "checker_cmd": "tlc -config MosaikRT.cfg MosaikRT; tlc -config MosaikRTPoll.cfg MosaikRTPoll (+ MosaikRTPollBug.cfg, MosaikRTPollDump.cfg); tlc -config RTPollTrace.cfg RTPollTrace; "
+                       "tlc -config RefTrace.cfg RefTrace; tlc -config DetTrace.cfg DetTrace",
     }
     assumptions = ["the clock of real-time runs is virtual and strictly increasing per read (jitter of a real clock is out of scope)",
                    "step durations are virtual timers on a binary-fraction grid"]
